@@ -2,10 +2,11 @@
 //!
 //! 0 flags ntpl SRC*           full pipeline: templates t0..t{n-1} served by a loader, t0 is
 //!                             rendered with a fixed context, once with debug off and once on.
-//!                             flags bit1: keep_trailing_newline.
+//!                             flags bit1: keep_trailing_newline; flags >> 8 = fuel + 1 (0 = unlimited).
 //! 1 flags SRC                 tokenizer only (machinery::tokenize): every token span + the error
 //! 2 nops (op a b c d e f)* nq q*   Instructions line/span tables driven directly
 //!                             op 0 = add, 1 = add_with_line(a), 2 = add_with_span(a..f)
+//! 3 flags SRC                 compile one template; the line / span recorded for every instruction
 //!
 //! SRC = nseg (rep len c1..clen)*   - the text is the concatenation of the segments, each
 //! repeated `rep` times (so that 65 000 inserted lines stay a short case).
@@ -143,6 +144,10 @@ fn pipeline(flags: i64, sources: Arc<Vec<String>>, debug: bool, out: &mut Vec<St
     let mut env = Environment::new();
     env.set_debug(debug);
     env.set_keep_trailing_newline(flags & 2 != 0);
+    if flags >> 8 > 0 {
+        // out of fuel after (flags >> 8) - 1 units: an error at an arbitrary instruction
+        env.set_fuel(Some((flags >> 8) as u64 - 1));
+    }
     let srcs = sources.clone();
     env.set_loader(move |name| {
         let i = tpl_index(name, srcs.len());
@@ -242,6 +247,57 @@ fn main() {
                             None => out.extend(["0".to_string(), "0".into(), "0".into()]),
                             Some(r) => out.extend(["1".to_string(), r.start.to_string(), r.end.to_string()]),
                         }
+                    }
+                }
+            }
+            3 => {
+                // compile one template and report the location recorded for every instruction
+                // (root instructions, then every block): nlines, then per instruction
+                // ltag line stag sl so eo ok  (ok: the span is a valid slice whose start lies on line sl)
+                let flags = c.i64();
+                let src = read_src(c);
+                let mut env = Environment::new();
+                env.set_keep_trailing_newline(flags & 2 != 0);
+                match env.template_from_named_str("t0", &src) {
+                    Err(_) => out.push("1".into()),
+                    Ok(t) => {
+                        let ct = minijinja::machinery::get_compiled_template(&t);
+                        out.push("0".into());
+                        out.push((1 + src.matches('\n').count()).to_string());
+                        let mut all: Vec<&Instructions> = vec![&ct.instructions];
+                        all.extend(ct.blocks.values());
+                        let mut recs: Vec<String> = vec![];
+                        let mut n = 0;
+                        for ins in all {
+                            let mut i = 0u32;
+                            while ins.get(i).is_some() {
+                                n += 1;
+                                match ins.get_line(i) {
+                                    None => recs.extend(["0".to_string(), "0".into()]),
+                                    Some(l) => recs.extend(["1".to_string(), l.to_string()]),
+                                }
+                                match ins.get_span(i) {
+                                    None => recs.extend(["0".to_string(), "0".into(), "0".into(), "0".into(), "1".into()]),
+                                    Some(sp) => {
+                                        let (a, b) = (sp.start_offset as usize, sp.end_offset as usize);
+                                        let ok = a <= b
+                                            && src.get(a..b).is_some()
+                                            && 1 + src[..a].matches('\n').count() == sp.start_line as usize
+                                            && 1 + src[..b].matches('\n').count() == sp.end_line as usize;
+                                        recs.extend([
+                                            "1".to_string(),
+                                            sp.start_line.to_string(),
+                                            a.to_string(),
+                                            b.to_string(),
+                                            if ok { "1" } else { "0" }.into(),
+                                        ]);
+                                    }
+                                }
+                                i += 1;
+                            }
+                        }
+                        out.push(n.to_string());
+                        out.extend(recs);
                     }
                 }
             }
